@@ -50,6 +50,7 @@ class Spec:
         self.families = families
         self.entry_modes = entry_modes
         self.sig_names = None               # configurations named in signatures / cached records (None = all)
+        self.quick_grid, self.quick_corpus = 700, 250      # size of the seed-selected slice of the quick tier
 
 
 def load_corpus(spec):
@@ -193,14 +194,14 @@ def load_expected(spec):
 def select_items(spec, tier, rng):
     grid = jscore.grids(tier, spec.families)
     corpus = load_corpus(spec)
-    ncorp = 250 if tier == "quick" else len(corpus)
+    ncorp = spec.quick_corpus if tier == "quick" else len(corpus)
     order = list(range(len(corpus)))
     rng.shuffle(order)                       # VERIF_SEED selects the slice and the order, never the content
     corpus = [corpus[i] for i in order[:ncorp]]
-    if tier == "quick" and len(grid) > 700:
+    if tier == "quick" and len(grid) > spec.quick_grid:
         gi = list(range(len(grid)))
         rng.shuffle(gi)
-        grid = [grid[i] for i in sorted(gi[:700])]
+        grid = [grid[i] for i in sorted(gi[:spec.quick_grid])]
     return grid, corpus
 
 
